@@ -147,3 +147,225 @@ spec fn keynode_location(n: KeyNode<'_>) -> Location {
 
 /// `idx.saturating_sub(1)`
 spec fn prev_idx(idx: usize) -> int { if idx == 0 { 0 } else { idx - 1 } }
+
+// ---- kind-aware node grammar (what capture_node accepts) and the fingerprint of a node ----
+
+/// end index (exclusive) of the well-kinded node that starts at `i`; None if there is none
+spec fn knode(s: Seq<Ev<'_>>, i: int) -> Option<int>
+    decreases s.len() - i, 1int
+{
+    if i < 0 || i >= s.len() { None }
+    else if s[i] is Scalar { Some(i + 1) }
+    else if s[i] is SeqStart { kseq(s, i + 1) }
+    else if s[i] is MapStart { kmap(s, i + 1) }
+    else { None }
+}
+
+/// items of a sequence from `i` up to and including its SeqEnd
+spec fn kseq(s: Seq<Ev<'_>>, i: int) -> Option<int>
+    decreases s.len() - i, 2int
+{
+    if i < 0 || i >= s.len() { None }
+    else if s[i] is SeqEnd { Some(i + 1) }
+    else { match knode(s, i) { Some(j) => if i < j <= s.len() { kseq(s, j) } else { None }, None => None } }
+}
+
+/// key/value pairs of a mapping from `i` up to and including its MapEnd
+spec fn kmap(s: Seq<Ev<'_>>, i: int) -> Option<int>
+    decreases s.len() - i, 2int
+{
+    if i < 0 || i >= s.len() { None }
+    else if s[i] is MapEnd { Some(i + 1) }
+    else { match knode(s, i) {
+        Some(j) => if i < j <= s.len() { match knode(s, j) { Some(k) => if j < k <= s.len() { kmap(s, k) } else { None }, None => None } } else { None },
+        None => None } }
+}
+
+/// Fingerprint of the node at `i`: kind, scalar text and scalar tag; blind to style, anchors,
+/// locations and container tags ("the same key node" of C04).
+spec fn fp_node(s: Seq<Ev<'_>>, i: int) -> Fp
+    decreases s.len() - i, 1int
+{
+    if i < 0 || i >= s.len() { Fp::Default }
+    else { match s[i] {
+        Ev::Scalar { value, tag, .. } => Fp::Scalar(value@, tag),
+        Ev::SeqStart { .. } => Fp::Sequence(fp_seq(s, i + 1)),
+        Ev::MapStart { .. } => Fp::Mapping(fp_map(s, i + 1)),
+        _ => Fp::Default,
+    } }
+}
+
+spec fn fp_seq(s: Seq<Ev<'_>>, i: int) -> Seq<Fp>
+    decreases s.len() - i, 2int
+{
+    if i < 0 || i >= s.len() || s[i] is SeqEnd { Seq::empty() }
+    else { match knode(s, i) {
+        Some(j) => if i < j <= s.len() { seq![fp_node(s, i)] + fp_seq(s, j) } else { Seq::empty() },
+        None => Seq::empty() } }
+}
+
+spec fn fp_map(s: Seq<Ev<'_>>, i: int) -> Seq<(Fp, Fp)>
+    decreases s.len() - i, 2int
+{
+    if i < 0 || i >= s.len() || s[i] is MapEnd { Seq::empty() }
+    else { match knode(s, i) {
+        Some(j) => if i < j <= s.len() { match knode(s, j) {
+            Some(k) => if j < k <= s.len() { seq![(fp_node(s, i), fp_node(s, j))] + fp_map(s, k) } else { Seq::empty() },
+            None => Seq::empty() } } else { Seq::empty() },
+        None => Seq::empty() } }
+}
+
+/// deep view of the code's fingerprint value
+spec fn fp_deep(k: KeyFingerprint) -> Fp
+    decreases k
+{
+    match k {
+        KeyFingerprint::Scalar { value, tag } => Fp::Scalar(value@, tag),
+        KeyFingerprint::Sequence(v) => Fp::Sequence(Seq::new(v@.len(), |i: int| if 0 <= i < v@.len() { fp_deep(v@[i]) } else { Fp::Default })),
+        KeyFingerprint::Mapping(v) => Fp::Mapping(Seq::new(v@.len(), |i: int|
+            if 0 <= i < v@.len() { (fp_deep(v@[i].0), fp_deep(v@[i].1)) } else { (Fp::Default, Fp::Default) })),
+        KeyFingerprint::Default => Fp::Default,
+    }
+}
+
+spec fn fps_deep(v: Seq<KeyFingerprint>) -> Seq<Fp> {
+    Seq::new(v.len(), |i: int| if 0 <= i < v.len() { fp_deep(v[i]) } else { Fp::Default })
+}
+spec fn fp_pairs_deep(v: Seq<(KeyFingerprint, KeyFingerprint)>) -> Seq<(Fp, Fp)> {
+    Seq::new(v.len(), |i: int| if 0 <= i < v.len() { (fp_deep(v[i].0), fp_deep(v[i].1)) } else { (Fp::Default, Fp::Default) })
+}
+
+/// the fingerprint a KeyNode stands for (the Scalar form computes it on demand from its event)
+spec fn keynode_fp(n: KeyNode<'_>) -> Fp {
+    match n {
+        KeyNode::Fingerprinted { fingerprint, .. } => fp_deep(fingerprint),
+        KeyNode::Scalar { events, .. } => if events@.len() > 0 { fp_node(events@, 0) } else { Fp::Default },
+    }
+}
+
+proof fn lemma_knode_bounds(s: Seq<Ev<'_>>, i: int)
+    ensures
+        knode(s, i) is Some ==> i < knode(s, i).unwrap() <= s.len() && 0 <= i,
+        kseq(s, i) is Some ==> i < kseq(s, i).unwrap() <= s.len() && 0 <= i,
+        kmap(s, i) is Some ==> i < kmap(s, i).unwrap() <= s.len() && 0 <= i,
+    decreases s.len() - i, 3int
+{
+    if 0 <= i < s.len() {
+        lemma_knode_bounds(s, i + 1);
+        match knode(s, i) { Some(j) => { if j > i { lemma_knode_bounds(s, j);
+            match knode(s, j) { Some(k) => { if k > j { lemma_knode_bounds(s, k); } }, None => {} } } }, None => {} }
+    }
+}
+
+spec fn shift(o: Option<int>, c: int) -> Option<int> { match o { Some(j) => Some(j - c), None => None } }
+
+/// parsing a suffix is parsing the whole sequence at an offset (for the recursive calls)
+proof fn lemma_knode_skip(s: Seq<Ev<'_>>, c: int, i: int)
+    requires 0 <= c <= s.len(), 0 <= i,
+    ensures
+        knode(s.skip(c), i) == shift(knode(s, c + i), c),
+        kseq(s.skip(c), i) == shift(kseq(s, c + i), c),
+        kmap(s.skip(c), i) == shift(kmap(s, c + i), c),
+    decreases s.len() - c - i, 3int
+{
+    let t = s.skip(c);
+    if i < t.len() {
+        assert(t[i] == s[c + i]);
+        lemma_knode_skip(s, c, i + 1);
+        assert(knode(t, i) == shift(knode(s, c + i), c));
+        lemma_knode_bounds(s, c + i);
+        match knode(s, c + i) {
+            Some(j) => {
+                if c + i < j <= s.len() {
+                    lemma_knode_skip(s, c, j - c);
+                    lemma_knode_bounds(s, j);
+                    match knode(s, j) { Some(k) => { if j < k <= s.len() { lemma_knode_skip(s, c, k - c); } }, None => {} }
+                }
+            },
+            None => {},
+        }
+        assert(kseq(t, i) == shift(kseq(s, c + i), c));
+        assert(kmap(t, i) == shift(kmap(s, c + i), c));
+    }
+}
+
+proof fn lemma_fp_skip(s: Seq<Ev<'_>>, c: int, i: int)
+    requires 0 <= c <= s.len(), 0 <= i,
+    ensures
+        fp_node(s.skip(c), i) == fp_node(s, c + i),
+        fp_seq(s.skip(c), i) == fp_seq(s, c + i),
+        fp_map(s.skip(c), i) == fp_map(s, c + i),
+    decreases s.len() - c - i, 3int
+{
+    let t = s.skip(c);
+    if i < t.len() {
+        assert(t[i] == s[c + i]);
+        lemma_fp_skip(s, c, i + 1);
+        lemma_knode_skip(s, c, i);
+        assert(fp_node(t, i) == fp_node(s, c + i));
+        lemma_knode_bounds(s, c + i);
+        match knode(s, c + i) {
+            Some(j) => {
+                if c + i < j <= s.len() {
+                    lemma_fp_skip(s, c, j - c);
+                    lemma_knode_skip(s, c, j - c);
+                    lemma_knode_bounds(s, j);
+                    match knode(s, j) { Some(k) => { if j < k <= s.len() { lemma_fp_skip(s, c, k - c); } }, None => {} }
+                }
+            },
+            None => {},
+        }
+        assert(fp_seq(t, i) == fp_seq(s, c + i));
+        assert(fp_map(t, i) == fp_map(s, c + i));
+    }
+}
+
+proof fn lemma_fp_deep_seq(v: Vec<KeyFingerprint>)
+    ensures fp_deep(KeyFingerprint::Sequence(v)) == Fp::Sequence(fps_deep(v@)),
+{
+    let f = fp_deep(KeyFingerprint::Sequence(v));
+    assert(f is Sequence);
+    assert(f->Sequence_0 =~= fps_deep(v@));
+}
+
+proof fn lemma_fp_deep_map(v: Vec<(KeyFingerprint, KeyFingerprint)>)
+    ensures fp_deep(KeyFingerprint::Mapping(v)) == Fp::Mapping(fp_pairs_deep(v@)),
+{
+    let f = fp_deep(KeyFingerprint::Mapping(v));
+    assert(f is Mapping);
+    assert(f->Mapping_0 =~= fp_pairs_deep(v@));
+}
+
+/// one more key/value pair parsed: how the mapping-level specs unfold (keeps the loop proof small)
+proof fn lemma_kmap_step(s: Seq<Ev<'_>>, c0: int, c1: int, c: int)
+    requires 0 <= c0 < c1, c1 < c, c <= s.len(), !(s[c0] is MapEnd), knode(s, c0) == Some(c1), knode(s, c1) == Some(c),
+    ensures kmap(s, c0) == kmap(s, c), fp_map(s, c0) == seq![(fp_node(s, c0), fp_node(s, c1))] + fp_map(s, c),
+{
+}
+
+proof fn lemma_kseq_step(s: Seq<Ev<'_>>, c0: int, c: int)
+    requires 0 <= c0 < c, c <= s.len(), !(s[c0] is SeqEnd), knode(s, c0) == Some(c),
+    ensures kseq(s, c0) == kseq(s, c), fp_seq(s, c0) == seq![fp_node(s, c0)] + fp_seq(s, c),
+{
+}
+
+/// a captured child: the cursor facts in terms of the whole sequence
+proof fn lemma_child(s: Seq<Ev<'_>>, c0: int)
+    requires 0 <= c0 < s.len(), knode(s.skip(c0), 0) is Some,
+    ensures ({
+        let m = knode(s.skip(c0), 0).unwrap();
+        &&& 0 < m && c0 + m <= s.len()
+        &&& knode(s, c0) == Some(c0 + m)
+        &&& fp_node(s.skip(c0), 0) == fp_node(s, c0)
+        &&& s.skip(c0).take(m) =~= s.subrange(c0, c0 + m)
+        &&& s.skip(c0).take(m).len() == m
+        &&& s.skip(c0).skip(m) =~= s.skip(c0 + m)
+        &&& s.skip(c0).skip(m).len() == s.len() - c0 - m
+        &&& s.take(c0) + s.subrange(c0, c0 + m) =~= s.take(c0 + m)
+        &&& s.skip(c0)[0] == s[c0]
+    }),
+{
+    lemma_knode_bounds(s.skip(c0), 0);
+    lemma_knode_skip(s, c0, 0);
+    lemma_fp_skip(s, c0, 0);
+}
